@@ -399,36 +399,40 @@ func c17Check(c *mixCase, pol mcrt.Policy) (sig, what string, nontrivial bool, o
 		sort.Strings(ss)
 		return fmt.Sprintf("wrong number of collision reports (expected collisions in %v)", ss), fmt.Sprintf("got %d warnings %q, expected %d: %v", len(warns), warns, len(expWarns), expWarns), nontrivial, outcome
 	}
-	used := make([]bool, len(warns))
-	for _, e := range expWarns {
-		found := false
-		for i, w := range warns {
-			if used[i] {
+	// every expected collision must be named by a distinct warning: a perfect matching between expectations and
+	// warnings (the wording of a warning is free, it only has to name the key; for a security requirement, its scheme names)
+	compat := func(e mixWarn, w string) bool {
+		if e.Section == "security" {
+			for k := range asObj(h.ToJSON([]byte(e.Key))) {
+				if !strings.Contains(w, k) {
+					return false
+				}
+			}
+			return true
+		}
+		return w == e.Key || strings.Contains(w, e.Key)
+	}
+	matchOf := make([]int, len(warns)) // warning -> expectation
+	for i := range matchOf {
+		matchOf[i] = -1
+	}
+	var try func(ei int, seen []bool) bool
+	try = func(ei int, seen []bool) bool {
+		for wi, w := range warns {
+			if seen[wi] || !compat(expWarns[ei], w) {
 				continue
 			}
-			key := e.Key
-			if e.Section == "security" {
-				// the requirement is rendered with %v: match on its scheme names
-				okAll := true
-				for k := range asObj(h.ToJSON([]byte(e.Key))) {
-					if !strings.Contains(w, k) {
-						okAll = false
-					}
-				}
-				if okAll && strings.Contains(strings.ToLower(w), "security") {
-					used[i], found = true, true
-					break
-				}
-				continue
-			}
-			// the wording of the warning is free: it only has to name the key
-			if w == key || strings.Contains(w, key) {
-				used[i], found = true, true
-				break
+			seen[wi] = true
+			if matchOf[wi] < 0 || try(matchOf[wi], seen) {
+				matchOf[wi] = ei
+				return true
 			}
 		}
-		if !found {
-			return "collision not reported for section " + e.Section, fmt.Sprintf("no warning names %v; warnings: %q", e, warns), nontrivial, outcome
+		return false
+	}
+	for ei, e := range expWarns {
+		if !try(ei, make([]bool, len(warns))) {
+			return "collision not reported for section " + e.Section, fmt.Sprintf("no distinct warning names %v; warnings: %q", e, warns), nontrivial, outcome
 		}
 	}
 	return "", "", nontrivial, outcome
